@@ -287,9 +287,9 @@ pub fn def() -> PropertyDef {
         ],
         exhaustive: false,
         subs: vec![
-            sub("F/adaptive-histories", no_fixed, (1500, 40_000), |_: &RunCtx, _: Option<&()>| hist_strategy(), oracle),
-            cancel_sub::<F>((1000, 20_000)),
-            cancel_sub::<R>((150, 2500)),
+            sub("F/adaptive-histories", no_fixed, (12_000, 150_000), |_: &RunCtx, _: Option<&()>| hist_strategy(), oracle),
+            cancel_sub::<F>((5000, 50_000)),
+            cancel_sub::<R>((600, 5000)),
         ],
     }
 }
